@@ -113,6 +113,8 @@ func verifBuildWorld(sim *verifsim.Sim) *verifWorld {
 	w.name[u("/media/alice.png")] = "pic_alice"
 	w.name[u("/notes/n3")] = "n3"
 	w.name[u("/missing")] = "fo"
+	/* outside the model's world: a post whose replies and author cannot be obtained (C08 liveness scenario) */
+	w.put("/notes/x1", map[string]any{"type": "Note", "name": "x1", "content": "<p>x</p>", "replies": u("/missing-replies"), "attributedTo": u("/missing-author")})
 	w.id, w.actors, w.activityOf = "w1", []string{"alice", "bob"}, map[string]string{"n1": "a1", "n3": "a2"}
 	w.startA, w.startP = "/users/alice", "/notes/n2"
 	return w
@@ -158,6 +160,8 @@ func verifBuildWorld2(sim *verifsim.Sim) *verifWorld {
 	w.name[u("/media/carol-banner.jpg")] = "banner_carol"
 	w.name[u("/notes/q4")] = "q4"
 	w.name[u("/missing")] = "fo"
+	/* outside the model's world: a post whose replies and author cannot be obtained (C08 liveness scenario) */
+	w.put("/notes/x1", map[string]any{"type": "Note", "name": "x1", "content": "<p>x</p>", "replies": u("/missing-replies"), "attributedTo": u("/missing-author")})
 	w.id, w.actors = "w2", []string{"carol", "grp"}
 	w.activityOf = map[string]string{"m1": "c1", "m2": "c2", "m3": "c3", "m4": "c4", "m5": "c5"}
 	w.startA, w.startP = "/users/carol", "/notes/m2"
@@ -1019,6 +1023,16 @@ func TestVerifConc(t *testing.T) {
 				out.Emit(verifkit.M{"ev": "unlocked", "sid": sid, "during": "open", "held": f.Held, "overlap": f.Overlap})
 				break
 			}
+		}
+		if sid%3 == 1 {
+			/* a page whose secondary fetches fail: the load must end and the interface accept keys again */
+			xc := &verifConc{verifSession: verifNewSession(w, out, sid, false)}
+			xc.s = NewState(80, 24, xc.callback)
+			returned := 0
+			if err := xc.s.Subcommand("open", w.h.URL("/notes/x1")); err == nil && xc.settle(10*time.Second) {
+				returned = 1
+			}
+			out.Emit(verifkit.M{"ev": "liveness", "sid": sid, "scenario": "page whose replies and author cannot be obtained", "issued": 1, "returned": returned})
 		}
 		if sid%3 == 0 {
 			/* a slow media hook that is abandoned with Esc (or another key) before it exits; afterwards
